@@ -68,7 +68,7 @@ def expected_ids_by_std(tr, kind, op, sid, tid, aid):
     if op in ('none',) or op.startswith('self'): return ('-', str(sid))
     if tr == '8': return ('0', 'null' if source_moved_from_by_std(tr, kind, op, sid, tid, aid) else '0')
     s_after = 'null' if source_moved_from_by_std(tr, kind, op, sid, tid, aid) else str(sid)
-    if op == 'merge': return (str(sid), str(tid))
+    if op == 'merge': return (str(tid), str(sid))
     if op in ('copyc', 'movec'): t = sid
     elif op in ('copyca', 'moveca'): t = aid
     elif op == 'copya': t = sid if ca else tid
@@ -118,26 +118,35 @@ def gen_cases(ctx, scale):
                         tss = states_for(kind, 't')
                         # quick: every (op, source state) with one id pattern (round robin), target state and follow-up
                         # sampled; thorough: every id pattern and every follow-up
-                        pats = idsets[1:4] if scale > 1 else [idsets[rr[0] % len(idsets)], idsets[(rr[0] // 2 + 1) % 4]][:(2 if fam == 'N' else 1)]
+                        if scale > 1:
+                            pats = [idsets[rr[0] % len(idsets)], idsets[(rr[0] + 2) % len(idsets)]]
+                        else:
+                            pats = [idsets[rr[0] % len(idsets)], idsets[(rr[0] // 2 + 1) % 4]][:(2 if fam == 'N' else 1)]
                         rr[0] += 1
                         for pi, ids in enumerate(pats):
                             posts = posts_for(tr, kind, op, ids)
-                            take = posts if (scale > 1 and pi == 0) else [r.choice(posts)]
+                            if scale > 1 and pi == 0:
+                                take = list(posts); r.shuffle(take); take = take[:3]
+                            else:
+                                take = [r.choice(posts)]
                             for post in take:
                                 add(tr, kind, op, ss, r.choice(tss), ids, post)
                 # the follow-ups on a moved-from source, exhaustively (this is where D11/D12/D13 live)
                 fss = states_for(kind, 's')
                 for ss in (fss[1:3] if scale > 1 else [fss[2]]):
-                    for ids in (idsets if scale > 1 else idsets[:3]):
+                    for ids in idsets[:3]:
                         for op in (['movec', 'movea'] + (['moveca'] if fam == 'W' else [])):
                             for post in ['clear', 'swapf', 'fswap', 'massign', 'cassign', 'none', 'fmove', 'ccopy', 'find'] + (['ilist'] if kind in CREW_WRAP else []) + (['reuse'] if ids == idsets[0] else []):
                                 add(tr, kind, op, ss, 'n3', ids, post)
-    # c7fda03: TreeSet::MergeTo into an empty set with an equal manager, then the source dies, then the target is used
+    # TreeSet::MergeTo: into an empty set with an equal manager (Swap, c7fda03); into a NON-empty set with an equal manager
+    # (fast path: trees joined, NodeParams::MergeFrom hands the pool buffers over) and with an unequal one (element-wise);
+    # then either the source dies first (post none) or it is cleared and outlives the target's use (post clear)
     for kind in ('TreeSet', 'TreeMap'):
         for ss in states_for(kind, 's'):
-            for tsx in ('e', 'c10'):
-                add('N', kind, 'merge', ss, tsx, (1, 1, 1), 'none')
-                add('N', kind, 'merge', ss, tsx, (5, 5, 7), 'none')
+            for tsx in ('e', 'c10', 'n3', 'd40', 'n1'):
+                for ids in ((1, 1, 1), (5, 5, 7), (1, 2, 3)):
+                    for post in ('none', 'clear'):
+                        add('N', kind, 'merge', ss, tsx, ids, post)
     # dedupe keeping order
     seen = set(); out = []
     for c in cases:
@@ -245,16 +254,27 @@ def evaluate(ctx, cases, lines):
     return bad
 
 
+def est_state(kind, ss):
+    """state whose freshly built object has the structure an element-wise move produces: the source's items inserted
+    in traversal (ascending) order into an empty container"""
+    if kind in ('set', 'map'): return ss if ss[0] in 'nd' else 'e'
+    if kind in ('mset', 'mmap'): return ('r' + ss[1:]) if ss[0] in 'nd' else 'e'
+    return None
+
+
 def attach_structure_tokens(ctx, cases):
     """first pass: ask the harness for the object graph of every distinct (binary, kind, source state, target state)
-    (`describe`), then append the two structure tokens to every case line.  The harness re-validates the tokens on the
-    built objects; the model builds its structured states (Bodies.v) from them."""
+    (`describe`), then append the structure tokens to every case line: source, target, and (tree wrappers) the shape of a
+    tree freshly built by ascending insertion of the source's items (what an element-wise move must produce).  The
+    harness re-validates the first two on the built objects; the model builds its structured states (Bodies.v) from them."""
     ri = _load_run_impl(ctx)
     suffix = '.san' if ctx.tier == 'thorough' else ''
     keys = {}
     for c in cases:
         tr, kind, op, ss, ts, sid, tid, aid, post = case_fields(c)
-        keys.setdefault((tr if tr == 'N' else '0', kind, ss, ts), None)
+        b = tr if tr == 'N' else '0'
+        keys.setdefault((b, kind, ss, ts), None)
+        if est_state(kind, ss): keys.setdefault((b, kind, est_state(kind, ss), 'e'), None)
     q = ['%s %s describe %s %s 1 1 1 none' % k for k in keys]
     out = ri.run_all(q, ctx.build, suffix)
     for k, l in zip(list(keys), out):
@@ -263,8 +283,10 @@ def attach_structure_tokens(ctx, cases):
     res = []
     for c in cases:
         tr, kind, op, ss, ts, sid, tid, aid, post = case_fields(c)
-        a, b = keys[(tr if tr == 'N' else '0', kind, ss, ts)]
-        res.append('%s %s %s' % (c, a, b))
+        b = tr if tr == 'N' else '0'
+        a, bb = keys[(b, kind, ss, ts)]
+        e = keys[(b, kind, est_state(kind, ss), 'e')][0] if est_state(kind, ss) else '*'
+        res.append('%s %s %s %s' % (c, a, bb, e))
     ctx.coverage['structure_descriptions'] = len(keys)
     return res
 
